@@ -650,7 +650,7 @@ def p_c14(ctx):
     viols, cov, _ = session_family(ctx)
     cases, n = tlc_cases(ctx, "MC_Outline.tla", "MC_Outline_quick.cfg" if ctx.quick else "MC_Outline_full.cfg", "mcoutline", timeout=3000)
     pre = os.path.join(ctx.work, "ol")
-    p = ctx.run_hx(["outline", "-cases", cases, "-out", pre, "-layouts", "2" if ctx.quick else "4"])
+    p = ctx.run_hx(["outline", "-cases", cases, "-out", pre, "-layouts", "4"])
     info = json.loads(p.stdout.strip().splitlines()[-1])
     files = sorted(glob.glob(pre + ".*.ndjson"))
     bad, events = ctx.validate_traces("TraceOutline.tla", "TraceOutline.cfg", files)
